@@ -111,7 +111,7 @@ class Gen:
         if k == 6:
             return ("cond", self.expr(depth - 1, False), self.expr(depth - 1, True), self.expr(depth - 1, False))
         if k == 7 and allow_comma:
-            return ("comma", [self.expr(depth - 1, r.random() < 0.2) for _ in range(r.randint(2, 3))])
+            return ("comma", [self.expr(depth - 1, r.random() < 0.4) for _ in range(r.randint(2, 3))])
         if k == 8:
             return ("un", r.choice(UNOPS), self.expr(depth - 1, False))
         if k == 9:
